@@ -38,9 +38,13 @@ LEVEL_NOTE = ("Trusted: Coq kernel + vm_compute; hand-written model coq/Model/C2
               "blocked-sender-not-woken), as is the pinned-clock deadline oracle timed-send-outlives-timeout.  In the "
               "model 'handed to the transport' is Transport._send_user_message; what that function does with the data "
               "(re-key gate with clear_to_send_timeout, dying transport) is checked on a real Transport at the "
-              "packetizer boundary only (transport-gate scenarios).  Not covered: a sendall overlapping a local "
-              "Transport.close(), which marks the transport inactive before unlinking its channels -- "
-              "_send_user_message then drops the chunk silently ('connection is dead'), as it does on the clean tree.")
+              "packetizer boundary only (transport-gate scenarios).  End to end (real Transport pair): transfers beyond the advertised window with non-default "
+              "window settings, and a sendall placed inside the tear-down after the peer went away (must raise).  "
+              "KNOWN FINDING (registered, key sendall-returned-during-own-transport-close): a sendall overlapping the "
+              "application's own Transport.close() returns normally with its data dropped -- stop_thread sets "
+              "active=False before close() unlinks the channels and _send_user_message silently drops user packets of "
+              "an inactive transport; the model does not contain this step (its transport always accepts), so "
+              "C25_total holds for the model's boundary (_send_user_message) only.")
 TECHNIQUE = "Coq proof (induction on fuel / wake-up lists) + source translator + vm_compute differential correspondence + watchdog / multi-thread oracles"
 
 MSG_DATA, MSG_EXT = 94, 95
@@ -901,6 +905,79 @@ def e2e_loss():
         e2e_close(tc, ts)
 
 
+def e2e_own_close():
+    """The application closes its own transport (Transport.close() -> stop_thread: active = False, then
+    packetizer.close(), ... and only afterwards are the channels unlinked).  A second thread's sendall on an open
+    channel is run to completion at the packetizer.close() call, i.e. right after the transport marked itself
+    inactive: Transport._send_user_message drops the chunk ('connection is dead') and sendall returns normally
+    although nothing was sent.  KNOWN FINDING on the current code (key sendall-returned-during-own-transport-close)."""
+    tc, ts, chan, schan = e2e_pair()
+    res = {}
+    try:
+        if chan is None or schan is None:
+            return {"outcome": "setup-failed"}, ("e2e-setup-failed", "could not open a session over the loopback pair")
+        orig_close = tc.packetizer.close
+        fired = threading.Event()
+        got_before = [0]
+
+        def hooked_close():
+            if not fired.is_set():
+                fired.set()
+
+                def snd():
+                    try:
+                        res["during"] = ("ok", chan.sendall(b"D" * 100))
+                    except BaseException as e:  # noqa
+                        res["during"] = ("exc", e)
+                th = threading.Thread(target=snd, daemon=True)
+                th.start()
+                th.join(E2E_WD)
+                if th.is_alive():
+                    res["during"] = ("hang", None)
+            return orig_close()
+
+        tc.packetizer.close = hooked_close
+        chan.settimeout(2.0)
+        tc.close()                       # the application's own close
+        try:
+            res["after"] = ("ok", chan.sendall(b"A" * 10))
+        except BaseException as e:  # noqa
+            res["after"] = ("exc", e)
+        # what the peer got before it noticed the loss
+        try:
+            schan.settimeout(0.3)
+            while True:
+                b = schan.recv(4096)
+                if not b:
+                    break
+                got_before[0] += len(b)
+        except Exception:  # noqa
+            pass
+
+        def show(r):
+            return "not run" if r is None else ("returned normally" if r[0] == "ok" else
+                                                ("hang" if r[0] == "hang" else type(r[1]).__name__))
+        obs = {"sendall_during_own_close": show(res.get("during")), "sendall_after_close": show(res.get("after")),
+               "bytes_received_by_peer": got_before[0], "bytes_given": 100,
+               "packetizer_close_seen": fired.is_set(), "channel_closed": bool(chan.closed)}
+        prob = None
+        if not fired.is_set():
+            prob = ("e2e-setup-failed", "Transport.close() did not reach packetizer.close()")
+        elif res.get("during", ("hang",))[0] == "hang":
+            prob = ("sendall-hangs-during-own-transport-close", "sendall hangs while the application closes the "
+                    "transport")
+        elif res["during"][0] == "ok" and got_before[0] < 100:
+            prob = ("sendall-returned-during-own-transport-close",
+                    "Channel.sendall overlapping the application's own Transport.close() returns normally with the "
+                    "data dropped: stop_thread sets active=False before close() unlinks the channels, and "
+                    "Transport._send_user_message silently drops user packets of an inactive transport")
+        elif res["after"][0] != "exc":
+            prob = ("sendall-returned-after-transport-loss", "sendall after Transport.close() must raise")
+        return obs, prob
+    finally:
+        e2e_close(tc, ts)
+
+
 def e2e_configs(seed, thorough):
     grid = []
     for configured in ("server", "client"):
@@ -948,6 +1025,15 @@ def e2e_runs(ctx):
     elif prob:
         ctx.fail(prob[0], prob[1], case={"e2e": "loss"}, expected="socket.error / an exception", observed=obs)
     ctx.sample({"e2e-loss": obs})
+    try:
+        obs, prob = e2e_own_close()
+    except Exception as e:  # noqa
+        obs, prob = {"exception": repr(e)}, ("e2e-setup-failed", "")
+    ctx.count(("e2e-own-close",), kind="e2e-own-close")
+    if prob and prob[0] == "e2e-setup-failed":
+        ctx.notes.append("e2e own-close scenario could not be set up: %r" % (obs,))
+    elif prob:
+        ctx.fail(prob[0], prob[1], case={"e2e": "own-close"}, expected="socket.error / an exception", observed=obs)
 
 
 def run(ctx):
@@ -1104,7 +1190,8 @@ def replay(ctx, rep):
     if isinstance(case, dict) and case.get("e2e"):
         if ctx.proof is None:
             ctx.prove()
-        obs, prob = e2e_loss() if case["e2e"] == "loss" else e2e_transfer(case["cfg"])
+        obs, prob = (e2e_loss() if case["e2e"] == "loss" else e2e_own_close() if case["e2e"] == "own-close"
+                     else e2e_transfer(case["cfg"]))
         ctx.count(("replay", repr(case)))
         ctx.count(("replay2", repr(case)))
         if prob:
